@@ -190,6 +190,13 @@ def rewrite_percent_z(p):
 
 
 # --------------------------------------------------------------------------- mutation operators
+def _rand_until_time(rng):
+    """UNTIL times get an explicit s/u/g/z suffix: a wall-clock UNTIL that falls into the gap/overlap of a rule
+    transition of the same night has no agreed meaning (zic's own reading depends on its processing order)."""
+    t = _rand_time(rng, allow_suffix=False)
+    return t + rng.choice(['s', 'u', 's', 'u', 'g', 'z'])
+
+
 def _rand_time(rng, allow_suffix=True, max_hour=25):
     h = rng.choice([0, 0, 1, 2, 2, 3, 4, 12, 23, 24, max_hour]) if rng.random() < 0.7 else rng.randrange(0, max_hour + 1)
     m = 0 if h >= 25 else rng.choice([0, 0, 0, 30, 1, 59, 15, 45, rng.randrange(60)])
@@ -259,7 +266,7 @@ def mutate(p, rng, n_edits=2):
                 if not cands:
                     continue
                 e = rng.choice(cands)
-                t = _rand_time(rng)
+                t = _rand_until_time(rng)
                 if len(e) >= 7:
                     e[6] = t
                 elif len(e) == 6:
@@ -279,7 +286,7 @@ def mutate(p, rng, n_edits=2):
                 if rng.random() < 0.7:
                     until += [rng.choice(MONTHS), _rand_on(rng) if rng.random() < 0.3 else str(rng.randrange(1, 29))]
                     if rng.random() < 0.6:
-                        until.append(_rand_time(rng))
+                        until.append(_rand_until_time(rng))
                 new_last = list(last)
                 if rng.random() < 0.5:
                     base = hms_to_seconds(last[0]) // 60 + rng.choice([-60, 60, 30, -30])
